@@ -18,6 +18,7 @@ struct PipeState {
     segments: VecDeque<Vec<u8>>,
     fin: bool,          // writer shut down its side: readers see EOF after the data
     reset: bool,        // connection reset: reads and writes fail
+    reset_when_empty: bool, // the peer reset after sending: queued bytes stay readable, then reads fail
     reader_gone: bool,  // reader shut down / dropped: writes fail with BrokenPipe
     fail_after: Option<(usize, ErrorKind)>, // injected: writes fail once this many bytes went through
     written: usize,
@@ -38,6 +39,8 @@ impl Pipe {
 struct Endpoint {
     rd: Arc<Pipe>,
     wr: Arc<Pipe>,
+    /// SO_RCVTIMEO: an option of the socket, shared by its clones
+    rd_timeout: StdMutex<Option<std::time::Duration>>,
 }
 
 impl Drop for Endpoint {
@@ -80,8 +83,8 @@ impl TcpStream {
         let s2c = Pipe::new();
         let cport = 40000 + (fresh_id() % 20000) as u16;
         let caddr = SocketAddr::new(IpAddr::V4(Ipv4Addr::LOCALHOST), cport);
-        let server = TcpStream { ep: Arc::new(Endpoint { rd: c2s.clone(), wr: s2c.clone() }), local: addr, peer: caddr, peer_gone: false };
-        let client = TcpStream { ep: Arc::new(Endpoint { rd: s2c, wr: c2s }), local: caddr, peer: addr, peer_gone: false };
+        let server = TcpStream { ep: Arc::new(Endpoint { rd: c2s.clone(), wr: s2c.clone(), rd_timeout: StdMutex::new(None) }), local: addr, peer: caddr, peer_gone: false };
+        let client = TcpStream { ep: Arc::new(Endpoint { rd: s2c, wr: c2s, rd_timeout: StdMutex::new(None) }), local: caddr, peer: addr, peer_gone: false };
         {
             let mut q = l.st.lock().unwrap();
             if q.closed {
@@ -105,6 +108,13 @@ impl TcpStream {
     /// test-side: a client that connects and resets before the server accepts: the accepted
     /// socket reports no peer address and fails every read and write
     pub fn connect_and_vanish<A: ToSocketAddrs>(addr: A) -> io::Result<()> {
+        Self::connect_send_and_vanish(addr, &[])
+    }
+
+    /// test-side: a client that connects, sends `data` and resets before the server accepts
+    /// (SO_LINGER 0 + close): the accepted socket reports no peer address, the queued bytes stay
+    /// readable (as on Linux), after them every read fails; every write fails
+    pub fn connect_send_and_vanish<A: ToSocketAddrs>(addr: A, data: &[u8]) -> io::Result<()> {
         let (rt, me) = current();
         rt.yield_point(me);
         let addr = addr.to_socket_addrs()?.next().ok_or_else(|| io::Error::new(ErrorKind::InvalidInput, "no address"))?;
@@ -115,10 +125,16 @@ impl TcpStream {
         };
         let c2s = Pipe::new();
         let s2c = Pipe::new();
-        c2s.st.lock().unwrap().reset = true;
+        if data.is_empty() {
+            c2s.st.lock().unwrap().reset = true;
+        } else {
+            let mut st = c2s.st.lock().unwrap();
+            st.segments.push_back(data.to_vec());
+            st.reset_when_empty = true;
+        }
         s2c.st.lock().unwrap().reset = true;
         let caddr = SocketAddr::new(IpAddr::V4(Ipv4Addr::LOCALHOST), 39999);
-        let server = TcpStream { ep: Arc::new(Endpoint { rd: c2s, wr: s2c }), local: addr, peer: caddr, peer_gone: true };
+        let server = TcpStream { ep: Arc::new(Endpoint { rd: c2s, wr: s2c, rd_timeout: StdMutex::new(None) }), local: addr, peer: caddr, peer_gone: true };
         {
             let mut q = l.st.lock().unwrap();
             if q.closed {
@@ -140,7 +156,12 @@ impl TcpStream {
     pub fn set_nodelay(&self, _: bool) -> io::Result<()> {
         Ok(())
     }
-    pub fn set_read_timeout(&self, _: Option<std::time::Duration>) -> io::Result<()> {
+    /// as on Unix: a blocked read fails with `WouldBlock` once the timeout went by (virtual time)
+    pub fn set_read_timeout(&self, t: Option<std::time::Duration>) -> io::Result<()> {
+        if t == Some(std::time::Duration::ZERO) {
+            return Err(io::Error::new(ErrorKind::InvalidInput, "cannot set a 0 duration timeout"));
+        }
+        *self.ep.rd_timeout.lock().unwrap() = t;
         Ok(())
     }
     pub fn set_write_timeout(&self, _: Option<std::time::Duration>) -> io::Result<()> {
@@ -206,6 +227,7 @@ impl Read for &TcpStream {
     fn read(&mut self, buf: &mut [u8]) -> io::Result<usize> {
         let (rt, me) = current();
         rt.yield_point(me);
+        let mut waited_until: Option<u64> = None;
         loop {
             {
                 let mut st = self.ep.rd.st.lock().unwrap();
@@ -225,11 +247,27 @@ impl Read for &TcpStream {
                     }
                     return Ok(n);
                 }
+                if st.reset_when_empty {
+                    return Err(io::Error::new(ErrorKind::ConnectionReset, "connection reset"));
+                }
                 if st.fin || st.reader_gone {
                     return Ok(0);
                 }
             }
-            rt.block(me, Res::SockRead(self.ep.rd.id), None);
+            let deadline = self.ep.rd_timeout.lock().unwrap().map(|d| rt.now() + d.as_nanos() as u64);
+            if let Some(d) = deadline {
+                if let Some(dl) = waited_until {
+                    if rt.now() >= dl {
+                        return Err(io::Error::new(ErrorKind::WouldBlock, "resource temporarily unavailable"));
+                    }
+                    rt.block(me, Res::SockRead(self.ep.rd.id), Some(dl));
+                } else {
+                    waited_until = Some(d);
+                    rt.block(me, Res::SockRead(self.ep.rd.id), Some(d));
+                }
+            } else {
+                rt.block(me, Res::SockRead(self.ep.rd.id), None);
+            }
         }
     }
 }
